@@ -1158,7 +1158,26 @@ def check_C16(ctx):
 
 # =========================================================================================== C01
 
+E2E_MC_CFG = """SPECIFICATION Spec
+CONSTANTS
+  NODES = {%(nodes)s}
+  DELTAS = {2000, 660000, 1260000, 3600000, 86395000, 86405000, 90000000}
+  PAUSES = {%(pauses)s}
+  MAXSTEPS = %(steps)d
+INVARIANT E2E
+CHECK_DEADLOCK FALSE
+"""
+
+
 def check_C01(ctx):
+    q = ctx.quick
+    r = vlib.tlc("mc/MC_E2E.tla", ctx.cfg("mce2e.cfg", E2E_MC_CFG % dict(nodes='"a", "b", "c"', pauses="1000, 3000", steps=7 if q else 9)),
+                 workers=8 if q else 16, timeout=900 if q else 3400, heap="8g" if q else "24g")
+    vlib.require_mc_ok(r, "MC_E2E")
+    ctx.add_mc("MC_E2E(3 nodes: token stores + peer stores, announce in two phases, time alphabet seconds..25 h)", r)
+    # vacuity guard: a search that dawdles 21 minutes between get_peers and announce_peer presents dead tokens
+    neg = vlib.tlc("mc/MC_E2E.tla", ctx.cfg("mce2e-neg.cfg", E2E_MC_CFG % dict(nodes='"a", "b"', pauses="1300000", steps=5)), workers=4, timeout=600)
+    vlib.require_mc_fails(neg, "E2E", "PAUSES={21 min}")
     ctx.assumptions += LOOKUP_ASSUME + [
         "runs of many virtual hours are recorded in projection mode: only the lines that can touch token stores, peer stores and search "
         "records (get_peers / announce_peer steps, search API lines) are written; find_node / ping maintenance traffic is not",
